@@ -256,3 +256,60 @@ Lemma stable_example :
   sort_changes [Ch 1 2 [1%N]; Ch 1 2 [2%N]] = [Ch 1 2 [1%N]; Ch 1 2 [2%N]]
   /\ sort_changes [Ch 1 2 [2%N]; Ch 1 2 [1%N]] = [Ch 1 2 [2%N]; Ch 1 2 [1%N]].
 Proof. split; reflexivity. Qed.
+
+(* ------------------------------------------------------------------ the renamed text keeps the token skeleton *)
+Lemma render_sel_relabel segs : forall sel nw tail,
+  render_sel segs sel nw tail = render (relabel_segs segs sel nw) tail.
+Proof.
+  induction segs as [|[g w] r IH]; intros sel nw tail; cbn; [reflexivity|].
+  destruct sel as [|[|] s]; cbn; now rewrite IH.
+Qed.
+
+Lemma relabel_gaps segs : forall sel nw, map fst (relabel_segs segs sel nw) = map fst segs.
+Proof.
+  induction segs as [|[g w] r IH]; intros sel nw; cbn; [reflexivity|].
+  destruct sel as [|[|] s]; cbn; now rewrite IH.
+Qed.
+
+Lemma relabel_word segs : forall sel nw k g w,
+  nth_error segs k = Some (g, w) ->
+  nth_error (relabel_segs segs sel nw) k = Some (g, if nth k sel false then nw else w).
+Proof.
+  induction segs as [|[g0 w0] r IH]; intros sel nw k g w H; [destruct k; discriminate|].
+  destruct k as [|k]; cbn in H.
+  - inversion H; subst. destruct sel as [|[|] s]; reflexivity.
+  - destruct sel as [|b s]; cbn [relabel_segs].
+    + cbn. rewrite (IH [] nw k g w H). now destruct k.
+    + destruct b; cbn; exact (IH s nw k g w H).
+Qed.
+
+(* What rename_in_module returns for a module, whatever the order in which the occurrences were met: the same
+   gaps (everything that is not an identifier token: layout, comments, strings, operators, keywords) in the same
+   order, the same number of words, the k-th word respelled exactly when its id is among the renamed ids *)
+Theorem rename_text_skeleton segs wids ids nw tail r :
+  words_nonempty segs ->
+  rename_text segs wids ids nw tail = Some r ->
+  let segs' := relabel_segs segs (map (fun i => memNid i ids) wids) nw in
+  r = render segs' tail
+  /\ map fst segs' = map fst segs
+  /\ length segs' = length segs
+  /\ forall k g w, nth_error segs k = Some (g, w) ->
+       nth_error segs' k = Some (g, if memNid (nth k wids 0%N) ids && Nat.ltb k (length wids) then nw else w).
+Proof.
+  intros Hn H segs'. unfold rename_text in H.
+  rewrite (collector_words segs _ nw tail _ Hn (Permutation_refl _)) in H.
+  destruct (word_changes 0 segs (map (fun i => memNid i ids) wids) nw); [discriminate|].
+  cbn zeta in H. destruct (text_eqb _ _); [discriminate|]. inversion H; subst r.
+  split; [apply render_sel_relabel|]. split; [apply relabel_gaps|].
+  split; [unfold segs'; rewrite <- (map_length fst (relabel_segs _ _ _)), relabel_gaps; apply map_length|].
+  intros k g w Hk. unfold segs'. rewrite (relabel_word segs _ nw k g w Hk). f_equal.
+  destruct (Nat.ltb_spec k (length wids)) as [L|L].
+  - rewrite andb_true_r. rewrite (nth_indep _ false (memNid 0%N ids)) by (now rewrite map_length).
+    now rewrite (map_nth (fun i => memNid i ids)).
+  - rewrite andb_false_r, nth_overflow; [reflexivity | now rewrite map_length].
+Qed.
+
+Lemma rename_text_example :
+  rename_text ex_segs [0; 1; 2; 3]%N [1; 3]%N ex_new ex_tail
+  = Some [97; 98; 32; 110; 101; 119; 40; 121; 44; 32; 110; 101; 119; 41]%N.
+Proof. vm_compute. reflexivity. Qed.
